@@ -159,6 +159,50 @@ func TestNumElementary(t *testing.T) {
 	}, checkElem)
 }
 
+// ---- PowReal on a tiny non-zero base ------------------------------------------
+
+type smallBaseCase struct {
+	E      int // base = ±2^E
+	Neg    bool
+	P      int // exponent (integer, so that negative bases are allowed)
+	B1, B2 int // infinitesimal parts in units of 1/4
+}
+
+func checkSmallBase(c smallBaseCase) *vk.Failure {
+	a := math.Ldexp(1, c.E)
+	if c.Neg {
+		a = -a
+	}
+	p := float64(c.P)
+	b1, b2 := float64(c.B1)/4, float64(c.B2)/4
+	vk.Class("powreal-small-base")
+	vk.NonTrivial("smallbase", c.E, c.Neg, c.P, c.B1, c.B2)
+	vk.Sample("num-powreal-small", c)
+	// powers of two: a^p, a^(p-1), a^(p-2) are exact
+	pw, d1, d2 := math.Pow(a, p), p*math.Pow(a, p-1), p*(p-1)*math.Pow(a, p-2)
+	g := dual.PowReal(dual.Number{Real: a, Emag: b1}, p)
+	if !relClose(g.Real, pw, math.Abs(pw), 4) || !relClose(g.Emag, d1*b1, math.Abs(d1*b1), 8) {
+		return vk.Failf("dual-powreal-small-base", "dual.PowReal(%v+%vϵ, %v)=%v want (%v, %v): the derivative p a^(p-1) must be taken at the real part itself", a, b1, p, g, pw, d1*b1)
+	}
+	h := hyperdual.PowReal(hyperdual.Number{Real: a, E1mag: b1, E2mag: b2}, p)
+	if !relClose(h.Real, pw, math.Abs(pw), 4) || !relClose(h.E1mag, d1*b1, math.Abs(d1*b1), 8) || !relClose(h.E2mag, d1*b2, math.Abs(d1*b2), 8) || !relClose(h.E1E2mag, d2*b1*b2, math.Abs(d2*b1*b2), 8) {
+		return vk.Failf("hyperdual-powreal-small-base", "hyperdual.PowReal(%v+%vϵ₁+%vϵ₂, %v)=%v want (%v, %v, %v, %v)", a, b1, b2, p, h, pw, d1*b1, d1*b2, d2*b1*b2)
+	}
+	return nil
+}
+
+func TestNumPowRealSmall(t *testing.T) {
+	vk.Run(t, "num-powreal-small", vk.Opts{Quick: 1000, Thorough: 50000, NoCrumb: true}, func(t *rapid.T) smallBaseCase {
+		return smallBaseCase{
+			E:   rapid.IntRange(-100, -20).Draw(t, "e"),
+			Neg: rapid.Bool().Draw(t, "neg"),
+			P:   rapid.IntRange(-3, 4).Draw(t, "p"),
+			B1:  rapid.IntRange(-16, 16).Draw(t, "b1"),
+			B2:  rapid.IntRange(-16, 16).Draw(t, "b2"),
+		}
+	}, checkSmallBase)
+}
+
 // ---- documented special values -------------------------------------------------
 
 type specialCase struct{ I int }
@@ -533,6 +577,41 @@ func checkAlg(c algCase) *vk.Failure {
 			sr := dualquat.Sqrt(cq)
 			if g := dualquat.Mul(sr, sr); !cl(g, cq, 256) {
 				return vk.Failf("dualquat-sqrt", "Sqrt(x)^2=%v for x=%v", g, cq)
+			}
+		}
+		// The same laws when real and dual parts do not commute: one law per
+		// case (selected by the seed), each under its own key.
+		nq := dualquat.Number{Real: quat.Scale(0.25, rquat(r)), Dual: quat.Scale(0.25, rquat(r))}
+		vn := quat.Abs(quat.Number{Imag: nq.Real.Imag, Jmag: nq.Real.Jmag, Kmag: nq.Real.Kmag})
+		if vn > 0 {
+			ar, ad := quat.Abs(nq.Real), quat.Abs(nq.Dual)
+			// condition: |log|, the divided differences over r - conj(r) = 2v
+			kd := vk.Eps * (ad + ar) * (1 + ad/ar) * (1 + math.Abs(math.Log(ar))) * (1 + ar/vn) * (1 + 1/ar)
+			ncl := func(g, w dualquat.Number, k float64) bool {
+				return qclose(g.Real, w.Real, k*vk.Eps*(ar+1/ar)*(1+math.Abs(math.Log(ar)))) && qclose(g.Dual, w.Dual, k*kd)
+			}
+			switch c.Seed % 4 {
+			case 0:
+				vk.Class("algebra:dualquat-noncommuting,powreal-2")
+				if g, w := dualquat.PowReal(nq, 2), dualquat.Mul(nq, nq); !ncl(g, w, 512) {
+					return vk.Failf("dualquat-noncommuting/powreal-2", "PowReal(x,2)=%v but Mul(x,x)=%v for x=%v", g, w, nq)
+				}
+			case 1:
+				vk.Class("algebra:dualquat-noncommuting,exp-log")
+				if g := dualquat.Exp(dualquat.Log(nq)); !ncl(g, nq, 512) {
+					return vk.Failf("dualquat-noncommuting/exp-log", "Exp(Log(x))=%v for x=%v", g, nq)
+				}
+			case 2:
+				vk.Class("algebra:dualquat-noncommuting,sqrt")
+				sr := dualquat.Sqrt(nq)
+				if g := dualquat.Mul(sr, sr); !ncl(g, nq, 512) {
+					return vk.Failf("dualquat-noncommuting/sqrt", "Sqrt(x)^2=%v for x=%v", g, nq)
+				}
+			default:
+				vk.Class("algebra:dualquat-noncommuting,powreal-minus-1")
+				if g, w := dualquat.PowReal(nq, -1), dualquat.Inv(nq); !ncl(g, w, 512) {
+					return vk.Failf("dualquat-noncommuting/powreal-minus-1", "PowReal(x,-1)=%v but Inv(x)=%v for x=%v", g, w, nq)
+				}
 			}
 		}
 	default:
